@@ -236,7 +236,9 @@ def r_bundle(ck: Checker) -> None:
     adds = [c for c in effects if unparse(c.func.value) == "self._add_lits"]  # type: ignore[attr-defined]
     ck.need(len(adds) == 1, "one site adds the order literals")
     new = adds[0].args[0]
-    txt = unparse(new).replace(" ", "")
+    loop_vars = {n.id for lp_ in [enclosing_loop(simple, adds[0])] if lp_ is not None for n in ast.walk(lp_.target) if isinstance(n, ast.Name)}
+    txts = {t.replace(" ", "") for t in it0.texts(adds[0], inline_displays(simple, new))}
+    txt = next(iter(txts)) if len(txts) == 1 else unparse(new).replace(" ", "")
     m = re.fullmatch(r"Literal\(LOC,Sign\.NoSign,Comparison\((\w+),\[Guard\(ComparisonOperator\.LessThan,(\w+)\)\]\)\)", txt)
     ok = m is not None
     if ok:
